@@ -105,6 +105,103 @@ type runner struct {
 	docs []string
 }
 
+// malformedClass names the first thing that is wrong with a path text the reference grammar rejects.
+func malformedClass(p string) string {
+	if p == "" || p[0] != '$' {
+		return "no-root"
+	}
+	i := 1
+	for i < len(p) {
+		switch p[i] {
+		case '.':
+			i++
+			if i < len(p) && p[i] == '.' {
+				i++
+			}
+			if i >= len(p) {
+				return "trailing-dot"
+			}
+			if p[i] == '"' {
+				j := i + 1
+				for j < len(p) && p[j] != '"' {
+					j++
+				}
+				if j >= len(p) {
+					return "unclosed-double-quote"
+				}
+				if j == i+1 {
+					return "empty-quoted-name"
+				}
+				i = j + 1
+				continue
+			}
+			j := i
+			for j < len(p) && (p[j] == 'a' || p[j] == 'b' || (p[j] >= '0' && p[j] <= '9')) {
+				j++
+			}
+			if j == i {
+				return "empty-name-after-dot"
+			}
+			i = j
+		case '[':
+			i++
+			if i >= len(p) {
+				return "unclosed-bracket"
+			}
+			switch {
+			case p[i] == '*':
+				if i+1 >= len(p) {
+					return "unclosed-bracket"
+				}
+				if p[i+1] != ']' {
+					return "junk-after-wildcard"
+				}
+				i += 2
+			case p[i] == '\'':
+				j := i + 1
+				for j < len(p) && p[j] != '\'' {
+					j++
+				}
+				if j >= len(p) {
+					return "unclosed-single-quote"
+				}
+				if j == i+1 {
+					return "empty-quoted-name"
+				}
+				if j+1 >= len(p) {
+					return "unclosed-bracket-after-quoted-name"
+				}
+				if p[j+1] != ']' {
+					return "junk-after-quoted-name"
+				}
+				i = j + 2
+			case p[i] >= '0' && p[i] <= '9':
+				j := i
+				for j < len(p) && p[j] >= '0' && p[j] <= '9' {
+					j++
+				}
+				if j-i > 1 && p[i] == '0' {
+					return "index-with-leading-zero"
+				}
+				if j >= len(p) {
+					return "unclosed-bracket"
+				}
+				if p[j] != ']' {
+					return "junk-in-index"
+				}
+				i = j + 1
+			case p[i] == ']':
+				return "empty-brackets"
+			default:
+				return "junk-in-brackets"
+			}
+		default:
+			return "junk-between-selectors"
+		}
+	}
+	return "other"
+}
+
 func (r *runner) checkPath(pc pathCase, counted bool) (*gojson.Path, bool) {
 	w := r.w
 	var p *gojson.Path
@@ -121,7 +218,9 @@ func (r *runner) checkPath(pc pathCase, counted bool) (*gojson.Path, bool) {
 		return nil, false
 	}
 	if !pc.Accept {
+		// the property: malformed path text is rejected with an error
 		w.Count("accepted_outside_reference_language", 1)
+		w.DivFine("create|accepts-malformed-path|"+malformedClass(pc.Path), "create|"+pc.Path, counted, "CreatePath accepts a text outside the documented grammar", Case{Part: "P", Path: pc.Path})
 		return p, false
 	}
 	for di, doc := range r.docs {
